@@ -86,6 +86,7 @@ type e2eWorld struct {
 	commits                          map[common.Hash]*types.Block // sealed blocks the real Server.commit produced (by block hash)
 	nMerged                          int
 	history                          bool
+	mergedBlock                      map[common.Hash]bool
 }
 
 var blsMgr = bls.NewBlsManager()
@@ -186,7 +187,7 @@ func newE2EWorld(line string, extra ...string) (*world, error) {
 	if err != nil {
 		return nil, err
 	}
-	e := &e2eWorld{bls: f[0] == "E2EB", commits: map[common.Hash]*types.Block{}, T: a[1], Tc: a[2], round: a[3], blocks: map[uint64]*types.Block{}, byHash: map[common.Hash]uint64{}, declared: map[uint64]bool{}, cache: map[string]sortRes{}}
+	e := &e2eWorld{mergedBlock: map[common.Hash]bool{}, bls: f[0] == "E2EB", commits: map[common.Hash]*types.Block{}, T: a[1], Tc: a[2], round: a[3], blocks: map[uint64]*types.Block{}, byHash: map[common.Hash]uint64{}, declared: map[uint64]bool{}, cache: map[string]sortRes{}}
 	initKeys()
 	if len(a)-4 > nKeys {
 		return nil, fmt.Errorf("too many validators")
@@ -447,8 +448,29 @@ func (e *e2eWorld) prepareVote(w *world, a []uint64, m *ucon.VerifC03Msg) {
 		if idx, ok := e.setFor(a[0]).st.GetValidators().GetIndex(crypto.PubkeyToAddress(keys[a[5]].PublicKey)); ok {
 			m.VoterIdx = uint32(idx)
 		}
-		sig := e.blsSk[a[5]%uint64(len(e.blsSk))].Sign(ucon.VerifC03VotePayload(m.Hash, m.Round, m.RoundIndex)).Compress()
+		// a[9]: 1 = the member's BLS signature over this vote's payload; 0 = malformed bytes (truncated by the hook);
+		// 2/3/4 = a well-formed signature of the member over ANOTHER block hash / round / index; 5 = another member's key;
+		// 6 = a well-formed signature unrelated to anything; 7 = missing. Everything but 1 must be refused.
+		signer := e.blsSk[a[5]%uint64(len(e.blsSk))]
+		h, rd, ix := m.Hash, m.Round, m.RoundIndex
+		switch a[9] {
+		case 2:
+			h = crypto.Keccak256Hash(h[:])
+		case 3:
+			rd = new(big.Int).Add(rd, big.NewInt(1))
+		case 4:
+			ix++
+		case 5:
+			signer = e.blsSk[(a[5]+1)%uint64(len(e.blsSk))]
+		case 6:
+			signer = e.blsSk[(a[5]+3)%uint64(len(e.blsSk))]
+			h = crypto.Keccak256Hash([]byte("unrelated"))
+		}
+		sig := signer.Sign(ucon.VerifC03VotePayload(h, rd, ix)).Compress()
 		m.RawSig = sig[:]
+		if a[9] == 7 {
+			m.RawSig = []byte{}
+		}
 	}
 }
 
@@ -474,6 +496,7 @@ func (e *e2eWorld) afterDelivery(w *world, st ucon.VerifC03Step) {
 				return
 			}
 			e.nMerged++
+			e.mergedBlock[ev.BlockHash] = true
 			hdr := e.chain.Updated[len(e.chain.Updated)-1]
 			nb := blk.WithSeal(hdr)
 			after, _ := ucon.ExtractUconValidators(hdr, params.LookBackPos)
@@ -664,6 +687,14 @@ func genE2E(r *vh.RNG, lag bool, blsWorld bool, hist bool) []string {
 			}
 		}
 	}
+	// thresholds below 2 give a quorum of 0 (no vote needed at all): outside every shipped parameter set, and with BLS
+	// an EMPTY vote set has no aggregated signature to verify; keep the quorums >= 1
+	if T < 2 {
+		T = 2
+	}
+	if Tc < 2 {
+		Tc = 2
+	}
 	hdr := fmt.Sprintf("%s %d %d %d %d", tag, seedB, T, Tc, R)
 	for k := range stakes {
 		hdr += fmt.Sprintf(" %d", stakes[k]*4+flags[k])
@@ -727,6 +758,14 @@ func genE2E(r *vh.RNG, lag bool, blsWorld bool, hist bool) []string {
 				}
 			}
 		}
+		if blsWorld {
+			// received votes whose BLS signature does not verify (the outer envelope, voter index and sortition are all fine)
+			for x := range votes {
+				if r.Chance(7) {
+					votes[x] = withSig(votes[x], uint64(r.Range(2, 7)))
+				}
+			}
+		}
 		if r.Chance(40) {
 			shuffle(r, votes)
 		} else {
@@ -750,6 +789,20 @@ func genE2E(r *vh.RNG, lag bool, blsWorld bool, hist bool) []string {
 			pos += take
 		}
 		out = append(out, votes[pos:]...)
+		// keep driving after a possible commit: counted precommitters / certificate voters equivocate, then a step change
+		if r.Chance(60) {
+			o := []uint64{1, 2, 3}[r.Intn(3)]
+			for s := 1; s < n; s++ {
+				if r.Chance(45) {
+					vt := uint64(3)
+					if cert && r.Chance(40) {
+						vt = 5
+					}
+					out = append(out, e.lineFor(vt, R, idx, o, 10+o, uint64(s), 2, 0, srvR, srvI))
+				}
+			}
+			out = append(out, fmt.Sprintf("C %d %d %d %d", R, idx, steps[len(steps)-1], b01(cert)))
+		}
 		// a stale precommit for the index just left
 		if c+1 < nIdx {
 			out = append(out, fmt.Sprintf("S %d %d", srvR, idx+1), fmt.Sprintf("C %d %d 0 %d", R, idx+1, b01(cert)),
@@ -834,6 +887,15 @@ func genE2EUpdate(r *vh.RNG, blsWorld bool) []string {
 	}
 	out = append(out, "D")
 	return out
+}
+
+// withSig rewrites the signature field of a V line.
+func withSig(line string, v uint64) string {
+	f := strings.Fields(line)
+	if len(f) == 16 && f[10] == "1" {
+		f[10] = fmt.Sprint(v)
+	}
+	return strings.Join(f, " ")
 }
 
 func runE2E(c *vh.Ctx, drv *vh.Driver, do func(name string, lines []string, family string) scriptResult) error {
